@@ -24,6 +24,9 @@ type c12Case struct {
 	Style   int    `json:"style"`              // 0 accepts the prefix then errors, 1 rejects the whole write, 2 accepts the prefix and reports no error for that write (every later write is refused), 3 takes the whole write and reports an error, 4 drops the tail of one write silently and goes on accepting, 5 refuses one write and works again afterwards
 	Prod    string `json:"prod"`               // producer that fails ("" = none)
 	ProdHow int    `json:"prod_how"`           // 1 before data, 2 after half, 3 after all data
+	// ProdOnce: the producer fails only the FIRST time it is called during the render and works on later calls (a
+	// signed message calls every producer twice: once for the digest, once for the output)
+	ProdOnce bool `json:"prod_once,omitempty"`
 	ErrKind int    `json:"err_kind,omitempty"` // which error value the failing producer returns (index into c12Errs)
 	// File > 0: the file-based entry points — 1 WriteToFile("/dev/full") (every write fails with ENOSPC), 2 WriteToFile
 	// into a directory that does not exist, 3 WriteToFile to a regular file while producer Prod fails, 4 WriteToTempFile
@@ -130,7 +133,7 @@ func c12Exec(r *vf.Run, k c12Case) (keys, whats []string) {
 	prodFired := false
 	hooks := &mb.Hooks{Wrap: func(name string, content []byte, def func(io.Writer) (int64, error)) func(io.Writer) (int64, error) {
 		return func(w io.Writer) (int64, error) {
-			if !prodOn || name != k.Prod {
+			if !prodOn || name != k.Prod || (k.ProdOnce && prodFired) {
 				return def(w)
 			}
 			prodFired = true
@@ -247,6 +250,9 @@ func c12Exec(r *vf.Run, k c12Case) (keys, whats []string) {
 	fault := "sink"
 	if prodFired && !sink.fired {
 		fault = "producer-" + []string{"", "before-data", "after-half", "after-all"}[k.ProdHow]
+		if k.ProdOnce {
+			fault += "(first call only)"
+		}
 	} else if prodFired {
 		fault = "producer+sink"
 	}
@@ -363,6 +369,7 @@ func init() {
 							for ek := range c12Errs {
 								cases = append(cases, c12Case{Shape: si, Second: second, SinkAt: -1, Prod: p, ProdHow: how, ErrKind: ek})
 							}
+							cases = append(cases, c12Case{Shape: si, Second: second, SinkAt: -1, Prod: p, ProdHow: how, ProdOnce: true})
 							if r.Thorough {
 								for k := 0; k < L; k += 8 {
 									cases = append(cases, c12Case{Shape: si, Second: second, SinkAt: k, Style: k / 8 % 2, Prod: p, ProdHow: how})
